@@ -42,7 +42,7 @@ impl<'tera> VirtualMachine<'tera> {
 }
 /// span presence for an erroring instruction is C07's undecided part: assumed, not proved
 #[verifier::external_body]
-pub fn vx_assume_some<T>(o: Option<T>) -> (r: T) { unimplemented!() }
+pub fn vx_assume_some<T>(o: Option<T>) -> (r: T) ensures o is Some ==> r == o->Some_0, o is Some { unimplemented!() }
 #[verifier::external_body]
 pub fn vx_string_eq_str(a: &String, b: &str) -> (r: bool) ensures r == (a@ == b@) { unimplemented!() }
 
